@@ -2,6 +2,7 @@ SPECIFICATION TSpec
 CONSTANTS
   Ids = {"A", "B", "C", "D"}
   MaxKeys = 6
+  CertN = 3
   Depth = 0
   MaxLevel = 0
   MaxFaults = 99
